@@ -58,7 +58,14 @@ def decode_chunk(buf, chunk_size, num_channels):
             f"The JPEG chunk is encoded with mode={img.mode} instead of RGB"
             )
 
-    flat_chunk = np.asarray(img)
+    try:
+        # Pillow decodes the pixel data lazily: a truncated or corrupt file is
+        # only detected here
+        flat_chunk = np.asarray(img)
+    except Exception as exc:
+        raise InvalidFormatError(
+            f"The JPEG-encoded chunk could not be decoded: {exc}"
+            ) from exc
     if num_channels == 3:
         # RGB channels are read by PIL along the last axis
         flat_chunk = np.moveaxis(flat_chunk, -1, 0)
